@@ -10,6 +10,8 @@ import JsonbModel.Driver.NumOps
 import JsonbModel.Driver.OrderOps
 import JsonbModel.Driver.TextOps
 import JsonbModel.Driver.PathOps
+import JsonbModel.Driver.JsonOps
+import JsonbModel.Driver.SelectOps
 
 namespace Jsonb.Driver
 open Jsonb.Wire
@@ -63,6 +65,12 @@ def step (line : String) : String :=
             | none =>
               match pathStep req with
               | some r => r
-              | none => badReq
+              | none =>
+                match jsonStep req with
+                | some r => r
+                | none =>
+                  match selectStep req with
+                  | some r => r
+                  | none => badReq
 
 end Jsonb.Driver
